@@ -458,6 +458,11 @@ class Harness:
         if self.pause_gate:
             self.pause_gate.open.set()
         try:
+            w = self.worker()
+            if w is not None and not w.is_alive() and not w.is_finalized():
+                # the run thread died from an exception: the library's cleanup would wait its full 1 s time-out for it
+                w.cleanup()
+                return
             self.sim.cleanup()
         except Exception:
             pass
